@@ -62,6 +62,65 @@ def handler_reraises(h):
     return len(body) == 1 and isinstance(body[0], ast.Raise) and body[0].exc is None
 
 
+def handler_fate(h, exc):
+    """What a handler does with a caught exception of class `exc`: 'reraise' (the same exception leaves the handler on every path),
+    'absorb' (some path ends the handler normally / returns), 'other' (raises something else) or 'unknown'."""
+    err = h.name
+
+    def truth(test):
+        neg = False
+        while isinstance(test, ast.UnaryOp) and isinstance(test.op, ast.Not):
+            neg, test = not neg, test.operand
+        if isinstance(test, ast.Call) and isinstance(test.func, ast.Name) and test.func.id == 'isinstance' and len(test.args) == 2 \
+                and isinstance(test.args[0], ast.Name) and test.args[0].id == err:
+            elts = test.args[1].elts if isinstance(test.args[1], ast.Tuple) else [test.args[1]]
+            names = [e.id if isinstance(e, ast.Name) else (e.attr if isinstance(e, ast.Attribute) else None) for e in elts]
+            if None in names:
+                return None
+            if any(is_subclass(exc, n) for n in names):
+                return not neg
+            if any(is_subclass(n, exc) for n in names):
+                return None            # a proper subclass: depends on the instance
+            return neg
+        return None
+
+    def block(body):
+        """set of fates of the block; 'fall' = control leaves the block at its end"""
+        out = set()
+        for s in body:
+            if isinstance(s, ast.Raise):
+                if s.exc is None or (isinstance(s.exc, ast.Name) and s.exc.id == err and s.cause is None):
+                    return out | {'reraise'}
+                return out | {'other'}
+            if isinstance(s, (ast.Return, ast.Continue, ast.Break)):
+                return out | {'absorb'}
+            if isinstance(s, ast.If):
+                t = truth(s.test)
+                branches = [s.body] if t is True else [s.orelse] if t is False else [s.body, s.orelse]
+                res = set()
+                for br in branches:
+                    res |= block(br)
+                out |= res - {'fall'}
+                if 'fall' not in res:
+                    return out
+                continue
+            if isinstance(s, (ast.Expr, ast.Assign, ast.AugAssign, ast.AnnAssign, ast.Pass, ast.Delete)):
+                continue
+            if any(isinstance(x, (ast.Raise, ast.Return, ast.Continue, ast.Break)) for x in ast.walk(s)):
+                return out | {'unknown'}
+        return out | {'fall'}
+    res = block(h.body)
+    if 'unknown' in res:
+        return 'unknown'
+    if 'fall' in res or 'absorb' in res:
+        return 'absorb'
+    if res == {'reraise'}:
+        return 'reraise'
+    if res == {'other'} or res == {'other', 'reraise'}:
+        return 'other'
+    return 'unknown'
+
+
 def caught_by(node, exc, func):
     """Is an exception `exc` raised at `node` caught by a try of `func` enclosing node (in its body, not handlers)?
     Returns the handler or None.  A handler that re-raises unchanged does not count as catching."""
